@@ -102,6 +102,12 @@ def make_models():
     from .plug_c17b import C17bInitModels  # C17: models of BaseFormulation.__init__ / CouplingStructure(...) (gated on `c17b_init = True` contracts)
 
     m.plugins.insert(0, C17bInitModels())
+    from .plug_c17b import C17bCaptureModels  # C17: captured constructor calls (gated on `c17b_capture` of the verified contract / its own raw field type)
+
+    m.plugins.insert(0, C17bCaptureModels())
+    from .plug_c17b import C17bNumpyModels  # C17: 2-D slice store a[r0:r1, c0:c1] = M (gated on `c17b_np = True` contracts)
+
+    m.plugins.insert(0, C17bNumpyModels())
     from .plug_c04r import C04ResultModels  # C04: result dataclasses, islice/next, single-expression nested functions, any(axis=1) (gated on `c04r = True` contracts)
 
     m.plugins.insert(0, C04ResultModels())
@@ -129,6 +135,15 @@ def make_models():
     from .plug_c05lin import C05LinModels  # C05 linearize protocol: nested <-> flat Jacobian dictionaries at the cache interface, ExecutionStatus.handle (gated on `c05lin = True` contracts)
 
     m.plugins.insert(0, C05LinModels())
+    from .plug_c19 import C19Models  # C19: abstract third-party distributions (own record types), column_stack, parameter-space glue (gated on `c19 = True` contracts)
+
+    m.plugins.insert(0, C19Models())
+    from .plug_c06 import C06Models  # C06 partial correctness of MDA solvers: ResidualScaling members, numpy scalars, converters, opaque discipline execution (gated on `c06 = True` contracts / own types)
+
+    m.plugins.insert(0, C06Models())
+    from .plug_c12 import C12Models  # backup clauses of C12 under C11/C03/C01: open-handle ghost, Path exists/unlink, description block of OptimizationProblem.to_hdf (gated on `c12 = True` contracts)
+
+    m.plugins.insert(0, C12Models())
     return m
 
 
